@@ -133,7 +133,7 @@ def runHist (fuel : Nat) : World → List HOp → List String → World × List 
   | w, [], acc => (w, acc.reverse)
   | w, op :: ops, acc =>
     let before := match op with | .openLink _ _ => [] | _ => sentOf w (loaderOf op)
-    let r := w.step fuel op
+    let r := w.step true fuel op
     let after := match op with | .openLink _ _ | .closeLink _ => [] | _ => sentOf r.1 (loaderOf op)
     runHist fuel r.1 ops (s!"{showHRes r.2}@{showPkts (after.drop before.length)}" :: acc)
 
